@@ -304,6 +304,8 @@ USERINFO = ['', '', '', '', 'u@', 'u:p@', 'U%2F:p%40@', '[@', ']@', '[::1]@', '[
 HOSTS = ['example.com', 'example.com', 'EXAMPLE.com', 'h', 'localhost', '127.0.0.1', '0x7f.1', '[::1]', '[2001:DB8::1]',
          'bücher.de', 'xn--bcher-kva.de', 'a.b.c.d.e', 'h.', '..', '.', 'a..b', '%2E%2E', 'h%2F', '[fe80::1%25eth0]',
          '[fe80::1%eth0]', 'ex_ample', 'Σ.gr', '1.2.3', 'a' * 63 + '.com', '[::ffff:1.2.3.4]', '日本.jp', '-']
+GOOD_HOSTS = ['example.com', 'EXAMPLE.com', 'h', 'localhost', '127.0.0.1', '[::1]', '[2001:DB8::1]', 'bücher.de',
+              'xn--bcher-kva.de', 'a.b.c.d.e', 'h.', 'ex_ample', '1.2.3', '日本.jp', 'a' * 63 + '.com']
 PORTS = ['', '', '', '', ':80', ':8080', ':21', ':443', ':0', ':65535', ':65536', ':', ':08080', ':x', ':-1']
 QUERIES = ['', '', '', '?', '?a=b', '?x=/', '?../..', '?a=%2F&b=..', '?q=é', '?a b', '?/', '?%00', '?a=b/', '?.', '?..',
            '?a#frag', '?' + 'q' * 300, '?a=\\', '?%2E%2E%2F']
@@ -343,7 +345,11 @@ def gen_raw_url(rng):
     if rng.random() < 0.08:
         path = path.replace('/', '//', 1)
     sep = '://' if rng.random() < 0.97 else rng.choice([':', ':/', ':///'])
-    return scheme + sep + rng.choice(USERINFO) + rng.choice(HOSTS) + rng.choice(PORTS) + path + rng.choice(QUERIES)
+    if rng.random() < 0.8:      # mostly an authority that URLInfo.parse accepts
+        auth = rng.choice(USERINFO[:8]) + rng.choice(GOOD_HOSTS) + rng.choice(PORTS[:10])
+    else:
+        auth = rng.choice(USERINFO) + rng.choice(HOSTS) + rng.choice(PORTS)
+    return scheme + sep + auth + path + rng.choice(QUERIES)
 
 
 def gen_name(rng):
@@ -786,18 +792,18 @@ def run(ctx):
     fixed = ['', '.', '..', '...', '/', '//', 'a/b', '../x', '\\', 'a\\b', '\x00', 'a\x00', ' ', 'a ', 'a.', '. ', 'é',
              'a' * 300, 'é' * 200, '/' * 100, 'Σ', 'AΣ', 'ß', 'K', '\udc80', 'CON', 'a:b', '\x1f', '\x7f', '\x85', '%2E%2E']
     cases = [(cfg, n) for cfg in all_safe_cfgs() for n in fixed]
-    cases += [(gen_safe_cfg(rng, other=True), gen_name(rng)) for _ in range(ctx.scale(6000, 200000))]
+    cases += [(gen_safe_cfg(rng, other=True), gen_name(rng)) for _ in range(ctx.scale(15000, 250000))]
     stream_safe(ctx, real, cases)
 
     # get_filename
     ncases = [(gen_namer_cfg(rng), u) for u in FIXED_URLS for _ in range(12 if not thorough else 60)]
-    ncases += [(gen_namer_cfg(rng, other=True), gen_raw_url(rng)) for _ in range(ctx.scale(9000, 400000))]
+    ncases += [(gen_namer_cfg(rng, other=True), gen_raw_url(rng)) for _ in range(ctx.scale(25000, 500000))]
     stream_name(ctx, real, ncases)
 
     # non-canonical strings straight into get_filename (correspondence of the urlsplit mirror)
     rcases = []
     urls = []
-    for _ in range(ctx.scale(1500, 30000)):
+    for _ in range(ctx.scale(3000, 40000)):
         u = gen_raw_url(rng)
         if rng.random() < 0.3:
             u = rng.choice(['', ' ', '\t', '//', 'x', ':', '1http:']) + u
@@ -821,7 +827,7 @@ def run(ctx):
 
     # Content-Disposition
     ccases = []
-    for _ in range(ctx.scale(4000, 120000)):
+    for _ in range(ctx.scale(8000, 150000)):
         cur = rng.choice(['dl/h/a/b.txt', 'dl/x', 'x', '/x', 'dl//x', 'a/b/', '', None, 'dl/h/index.html', './x'])
         url = rng.choice(['http://h/a/b.txt', 'https://h/', 'ftp://h/f', 'http://h/x?y'])
         ccases.append((gen_safe_cfg(rng), cur, url, gen_header(rng) if rng.random() < 0.93 else None))
@@ -830,7 +836,7 @@ def run(ctx):
     # the real writer sessions
     scratch = tempfile.mkdtemp(prefix='c15-')
     try:
-        for _ in range(ctx.scale(1500, 30000)):
+        for _ in range(ctx.scale(3000, 40000)):
             check_writer(ctx, real, scratch, gen_writer_case(rng))
     finally:
         shutil.rmtree(scratch, ignore_errors=True)
